@@ -182,6 +182,8 @@ def load_catii(kernels="summary", modules=("iindexes", "ffuncs", "xfuncs", "ccub
         from . import kernelrt as K
         so.__dict__.update({"__c_coerce": _snp_coerce, "__sx_len": sx_len, "__sx_min": K.sx_min,
                             "__sx_max": K.sx_max, "__sx_range": K.sx_range})
+        from .lower_pyx import cimported_namespace
+        so.__dict__.update(cimported_namespace())
         exec(code, so.__dict__)
         so.numpy = snp_funcs.NUMPY
         if kernels == "summary":
